@@ -122,7 +122,7 @@ let down_s = function
       ^ join ","
           (List.map
              (fun c ->
-               Printf.sprintf "%s:%s:%s:%s:%s" (tid_s c.ct_id) (sn c.ct_inst) (match c.ct_rv with Some v -> sn v | None -> "p") (sn c.ct_rq) (join "+" (List.map sn c.ct_nodes)))
+               Printf.sprintf "%s:%s:%s:%s:%s:t%d" (tid_s c.ct_id) (sn c.ct_inst) (match c.ct_rv with Some v -> sn v | None -> "p") (sn c.ct_rq) (join "+" (List.map sn c.ct_nodes)) (if c.ct_tlim then 1 else 0))
              ts)
   | DRetract ids -> "retract " ^ tids_s (List.sort compare_tid ids)
   | DCancel ids -> "cancel " ^ tids_s (List.sort compare_tid ids)
